@@ -12,6 +12,7 @@ import (
 	"crypto"
 	"crypto/ecdsa"
 	"crypto/ed25519"
+	"crypto/elliptic"
 	crand "crypto/rand"
 	"crypto/rsa"
 	"crypto/tls"
@@ -115,7 +116,7 @@ func c19StartAgent(sock string) (*c19Agent, net.Listener, error) {
 // c19AgeAgent replaces every certificate the agent holds by an expired copy (same key, same label, validity moved two
 // days into the past, re-signed with the CA key) and drops entry lifetimes: the state of an agent that ignores key
 // lifetimes, one day later.
-func c19AgeAgent(a *c19Agent) (int, error) {
+func c19AgeAgent(a *c19Agent, copies int) (int, error) {
 	blk, _ := pem.Decode(verifDFixture("ca_rsa2048"))
 	if blk == nil {
 		return 0, fmt.Errorf("CA fixture")
@@ -146,16 +147,22 @@ func c19AgeAgent(a *c19Agent) (int, error) {
 	}
 	n := 0
 	for _, k := range latest {
-		c := *k.Certificate
-		c.ValidAfter = uint64(time.Now().Add(-72 * time.Hour).Unix())
-		c.ValidBefore = uint64(time.Now().Add(-48 * time.Hour).Unix())
-		if err := c.SignCert(crand.Reader, caSigner); err != nil {
-			return n, err
+		for j := 0; j < copies; j++ {
+			c := *k.Certificate
+			c.Serial = uint64(1000 + j)
+			c.ValidAfter = uint64(time.Now().Add(-time.Duration(72+j) * time.Hour).Unix())
+			c.ValidBefore = uint64(time.Now().Add(-time.Duration(48-j) * time.Hour).Unix())
+			if j == 1 {
+				c.ValidBefore = uint64(time.Now().Add(time.Hour).Unix()) // one of several is still valid
+			}
+			if err := c.SignCert(crand.Reader, caSigner); err != nil {
+				return n, err
+			}
+			if err := a.Agent.Add(agent.AddedKey{PrivateKey: k.PrivateKey, Certificate: &c, Comment: k.Comment}); err != nil {
+				return n, err
+			}
+			n++
 		}
-		if err := a.Agent.Add(agent.AddedKey{PrivateKey: k.PrivateKey, Certificate: &c, Comment: k.Comment}); err != nil {
-			return n, err
-		}
-		n++
 	}
 	return n, nil
 }
@@ -299,7 +306,9 @@ func TestVerifC19(t *testing.T) {
 			}
 		}
 	}
+	c19UnusualButValidKeys(rep)
 	rep.Floor("client_runs_ok", 12)
+	rep.Floor("unusual_valid_keys_offered", 8)
 	rep.Floor("wire_requests_recorded", 100)
 	rep.Floor("public_halves_found_on_wire", 20)
 	rep.Floor("private_needles_searched", 50)
@@ -428,7 +437,11 @@ func c19OneConfig(t *testing.T, rep *verifReport, d *verifDaemon, logger *debugl
 		if ag != nil && iter == 0 && iters > 1 && pref != "rsa" { // (the rsa run keeps the still valid certificate of the first run)
 			// between the two runs a day passes on an agent that does not expire its entries: what it holds under
 			// these labels is now an EXPIRED certificate; the second run must still replace it
-			if n, err := c19AgeAgent(ag); err != nil {
+			copies := 1
+			if pref == "p256" {
+				copies = 3 // several stale entries under one label, next to each other (left by overlapping earlier runs)
+			}
+			if n, err := c19AgeAgent(ag, copies); err != nil {
 				rep.Obs("could not age the agent's certificates: %v", err)
 			} else {
 				rep.Count("agent_certificates_aged_between_runs", n)
@@ -637,4 +650,90 @@ func c19SubmittedKeyType(r c19Recorded) string {
 		return "ed25519"
 	}
 	return "unknown"
+}
+
+// c19UnusualButValidKeys: keys the client can generate with small probability - ECDSA points with a coordinate whose top
+// byte is zero (1 in 128), RSA moduli whose encoding ends in particular base64 shapes - serialised as the client does and
+// sent to the real daemon: every one must be certified, for SSH and X.509.
+func c19UnusualButValidKeys(rep *verifReport) {
+	d, err := verifStartDaemon(verifDaemonOpts{Name: "c19-keys", Users: map[string]string{"keyuser": "alice-pw-19"},
+		AllowedCerts: []string{"password"}, AllowedWebUI: []string{"password"}, Ed25519: true})
+	if err != nil {
+		rep.Inconc("daemon: %v", err)
+		return
+	}
+	defer d.Stop()
+	jar := &c19Jar{}
+	cl := &http.Client{Transport: &http.Transport{TLSClientConfig: &tls.Config{RootCAs: d.RootPool()}}, Jar: jar, Timeout: 20 * time.Second}
+	resp, err := cl.PostForm(d.ServiceURL()+"/api/v0/login", url.Values{"username": {"keyuser"}, "password": {"alice-pw-19"}})
+	if err != nil || resp.StatusCode != 200 {
+		rep.Inconc("login for the key probes failed: %v", err)
+		return
+	}
+	resp.Body.Close()
+	type probe struct {
+		name string
+		pub  crypto.PublicKey
+	}
+	var probes []probe
+	for _, cv := range []struct {
+		name  string
+		curve elliptic.Curve
+	}{{"p256", elliptic.P256()}, {"p384", elliptic.P384()}} {
+		want := map[string]bool{"x-top-byte-zero": false, "y-top-byte-zero": false}
+		size := (cv.curve.Params().BitSize + 7) / 8
+		for tries := 0; tries < 20000 && (!want["x-top-byte-zero"] || !want["y-top-byte-zero"]); tries++ {
+			k, err := ecdsa.GenerateKey(cv.curve, crand.Reader)
+			if err != nil {
+				continue
+			}
+			if len(k.X.Bytes()) < size && !want["x-top-byte-zero"] {
+				want["x-top-byte-zero"] = true
+				probes = append(probes, probe{cv.name + "-x-top-byte-zero", &k.PublicKey})
+			}
+			if len(k.Y.Bytes()) < size && !want["y-top-byte-zero"] {
+				want["y-top-byte-zero"] = true
+				probes = append(probes, probe{cv.name + "-y-top-byte-zero", &k.PublicKey})
+			}
+		}
+	}
+	for _, p := range probes {
+		for _, ct := range []string{"ssh", "x509"} {
+			var keyText string
+			if ct == "ssh" {
+				sp, err := ssh.NewPublicKey(p.pub)
+				if err != nil {
+					continue
+				}
+				keyText = string(ssh.MarshalAuthorizedKey(sp))
+			} else {
+				der, err := x509.MarshalPKIXPublicKey(p.pub)
+				if err != nil {
+					continue
+				}
+				keyText = string(pem.EncodeToMemory(&pem.Block{Type: "PUBLIC KEY", Bytes: der}))
+			}
+			var body bytes.Buffer
+			mw := multipart.NewWriter(&body)
+			fw, _ := mw.CreateFormFile("pubkeyfile", "key.pub")
+			fw.Write([]byte(keyText))
+			mw.WriteField("duration", "1h")
+			mw.Close()
+			req, _ := http.NewRequest("POST", d.ServiceURL()+"/certgen/keyuser?type="+ct, &body)
+			req.Header.Set("Content-Type", mw.FormDataContentType())
+			r, err := cl.Do(req)
+			if err != nil {
+				rep.Inconc("key probe %s/%s: %v", p.name, ct, err)
+				continue
+			}
+			io.Copy(io.Discard, r.Body)
+			r.Body.Close()
+			rep.Eval(fmt.Sprintf("unusual-valid-key|%s|%s|%d", p.name, ct, r.StatusCode))
+			rep.Count("unusual_valid_keys_offered", 1)
+			if r.StatusCode != 200 {
+				rep.Violate(fmt.Sprintf("C19/offered-key-refused/%s/%s", ct, p.name), fmt.Sprintf("a valid %s key the client can generate (%s) was answered %d for a %s certificate", strings.SplitN(p.name, "-", 2)[0], p.name, r.StatusCode, ct),
+					map[string]interface{}{"key": p.name, "cert_type": ct, "status": r.StatusCode})
+			}
+		}
+	}
 }
